@@ -774,7 +774,7 @@ func c19SharedCore(p *an.Prog, r *an.Report, full, core string, acquire int) {
 		return
 	}
 	fs, cs := coreCalls(p, ff), coreCalls(p, cf)
-	ok := len(fs) >= acquire && strings.Join(fs[min(acquire, len(fs)):], ",") == strings.Join(cs, ",") && len(cs) >= 3
+	ok := len(fs) >= acquire && strings.Join(fs[min(acquire, len(fs)):], ",") == strings.Join(cs, ",") && len(cs) >= 1
 	r.Check(ok, "C19.C1", ff.Name()+"~"+cf.Name()+"/steps", p.FnPos(ff), fmt.Sprintf("after obtaining the certificate, %s applies exactly the validation/extraction steps of %s, in the same order", ff.Name(), cf.Name()),
 		ff.Name()+": "+strings.Join(fs, " → "), cf.Name()+": "+strings.Join(cs, " → "))
 }
@@ -866,7 +866,7 @@ func C19(p *an.Prog, r *an.Report) {
 	c19TypeParam(p, r, "keytypes", []string{"certificate.BuildKeyTypePayload", "certificate.(*CertificateBuilder).WithKeyTypes"}, "cryptoType", an.IvRange(-70000, 140000))
 	c19BuilderState(p, r)
 	nk := c19KeyTypeEncoders(p, r)
-	r.Floor("key-type payload encoders", nk, 3)
+	r.Floor("key-type payload encoders", nk, 1)
 	c19SharedCore(p, r, "key_certificate.NewKeyCertificate", "key_certificate.KeyCertificateFromCertificate", 1)
 	c19TwinSerializers(p, r)
 	c01Block(p, r, "C19.R1")
@@ -911,7 +911,7 @@ func c19BuilderState(p *an.Prog, r *an.Report) {
 	ev := &an.PEval{P: p, Domain: an.IvAll(), MaxPaths: 20000, MaxSteps: 400000, LoopOK: true, MaxDepth: 8, InitStore: store, NoInlineInHavoc: true,
 		Trap: func(ssa.Instruction, string, []string) {},
 		Inline: func(f *ssa.Function) bool {
-			return an.InLib(f) && strings.HasSuffix(an.FnPkgPath(f), "/certificate") && f.Signature.Recv() != nil && len(f.Blocks) > 0
+			return an.InLib(f) && strings.HasSuffix(an.FnPkgPath(f), "/certificate") && len(f.Blocks) > 0 && f.Name() != "NewCertificateWithType"
 		},
 		OnCall: func(ev *an.PEval, call *ssa.Call, callee *ssa.Function, args []an.AV) (an.AV, bool) {
 			if callee != nil && callee.Name() == "buildKeyTypePayload" {
@@ -933,7 +933,16 @@ func c19BuilderState(p *an.Prog, r *an.Report) {
 			continue
 		}
 		succ++
-		if !o.HasNote("key-type-payload-built") {
+		// name-free criterion: the payload field of the builder no longer holds the stale value
+		stillStale := false
+		if len(o.Store) > 0 && o.Store[0].K == an.KStruct {
+			for i := 0; i < st.NumFields(); i++ {
+				if st.Field(i).Name() == "payload" && i < len(o.Store[0].Elems) && o.Store[0].Elems[i].Tag == "stale" {
+					stillStale = true
+				}
+			}
+		}
+		if stillStale && !o.HasNote("key-type-payload-built") {
 			bad = append(bad, fmt.Sprintf("a successful path (return at %s) keeps the payload left in the builder instead of building it from the key types: %s", p.Pos(o.RetPos), strings.Join(tail(o.Trail, 3), " | ")))
 		}
 	}
